@@ -299,18 +299,23 @@ def _check(pre, cg, aa):
                         break
                 continue
             hv = sum(e.get('order', 1) for _, x, e in aa.edges(n, data=True) if aa.nodes[x].get('element') != 'H')
-            nh = sum(e.get('order', 1) for _, x, e in aa.edges(n, data=True) if aa.nodes[x].get('element') == 'H')
+            # hydrogens written explicitly in a template are kept as written; only the completed ones are the resolver's choice
+            h_written = sum(e.get('order', 1) for _, x, e in aa.edges(n, data=True)
+                            if aa.nodes[x].get('element') == 'H' and aa.nodes[x].get('mapping'))
+            nh = sum(e.get('order', 1) for _, x, e in aa.edges(n, data=True)
+                     if aa.nodes[x].get('element') == 'H' and not aa.nodes[x].get('mapping'))
             vals = VAL.get((el, d.get('charge', 0)))
             if not vals:
                 STATS['valence_unknown_element'] += 1
                 continue
             fit = [v for v in vals if v >= hv - 1e-9]
-            if not fit:
+            fit_all = [v for v in vals if v >= hv + h_written - 1e-9]
+            if not fit or not fit_all:
                 STATS['valence_exceeded'] += 1
                 continue
             STATS['valence_checked'] += 1
-            if abs((fit[0] - hv) - nh) > 1e-9:
-                rec('C09', 'c09.valence', f'{tag} atom {n} {el}{d.get("charge", 0):+d}: heavy bond orders sum to {hv}, smallest usual valence {fit[0]}, but its bonds to hydrogen sum to {nh}')
+            if abs((fit_all[0] - hv - h_written) - nh) > 1e-9:
+                rec('C09', 'c09.valence', f'{tag} atom {n} {el}{d.get("charge", 0):+d}: heavy bond orders sum to {hv}, explicitly written hydrogens {h_written}, smallest usual valence {fit_all[0]}, but its bonds to completed hydrogens sum to {nh}')
     # ------------------------------------------------------------------ C12 numbering / names
     keys = sorted(aa.nodes, key=repr)
     if set(aa.nodes) != set(range(len(aa))):
